@@ -361,15 +361,19 @@ class Program:
                         m = Module(name, path, rel, src)
                 except SyntaxError as e:
                     raise AnalysisError("shipped file does not parse: %s: %s" % (rel, e))
-                from .inline import inline_new_helpers
-                m.inlined = inline_new_helpers(m.tree, name)
-                _inline_temporaries(m.tree)
-                _mark_elifs(m.tree)
-                _Canon().visit(m.tree)
-                ast.fix_missing_locations(m.tree)
-                _attach_parents(m.tree)
                 self.modules[name] = m
                 self.units.append(rel)
+        # normal form (xyzsa/inline.py, then the local rewrites below), once every module is parsed: whether a helper that
+        # was read through everywhere may be dropped from the analysis' tree depends on the other modules not naming it
+        from .inline import inline_new_helpers
+        for name, m in self.modules.items():
+            others = "\n".join(o.source for n2, o in self.modules.items() if n2 != name)
+            m.inlined = inline_new_helpers(m.tree, name, others)
+            _inline_temporaries(m.tree)
+            _mark_elifs(m.tree)
+            _Canon().visit(m.tree)
+            ast.fix_missing_locations(m.tree)
+            _attach_parents(m.tree)
 
     # ----------------------------------------------------------------- index
     def _index(self):
